@@ -32,16 +32,21 @@ class HarnessStall(Exception):
     """a worker neither finished nor reached a yield point (harness error, never a violation)"""
 
 
-class CoopLock:
-    """re-entrant lock whose blocked acquirers yield to the scheduler"""
+CURRENT = [None]  # the scheduler that owns the running schedule, if any
 
-    def __init__(self, sched):
-        self.sched = sched
+
+class CoopLock:
+    """Re-entrant lock handed to the library instead of threading.Lock / RLock while the objects under test are
+    created.  Under a running schedule a blocked acquirer yields to the scheduler; outside of one (sequential
+    reference runs, probes) there is no contention."""
+
+    def __init__(self, *a, **k):
         self.owner = None
         self.depth = 0
 
     def acquire(self, blocking=True, timeout=-1):
         me = threading.get_ident()
+        spins = 0
         while True:
             if self.owner is None or self.owner == me:
                 self.owner = me
@@ -49,17 +54,31 @@ class CoopLock:
                 return True
             if not blocking:
                 return False
-            self.sched.yield_point(blocked=True)
+            sched = CURRENT[0]
+            if sched is not None and getattr(sched._tls, "worker", None) is not None:
+                sched.yield_point(blocked=True)
+            else:
+                spins += 1
+                if spins > 200000:
+                    raise HarnessStall("lock never released outside a schedule")
+                import time
+
+                time.sleep(0.0001)
 
     def release(self):
         self.depth -= 1
-        if self.depth == 0:
+        if self.depth <= 0:
+            self.depth = 0
             self.owner = None
 
-    __enter__ = acquire
+    def __enter__(self):
+        return self.acquire()
 
     def __exit__(self, *a):
         self.release()
+
+    def locked(self):
+        return self.owner is not None
 
 
 class Scheduler:
